@@ -239,6 +239,15 @@ func parseStrList(s string) []string {
 	for i, b := range bl {
 		r[i] = string(b)
 	}
+	// every other list: a key that is a prefix of its successor is handed over as a substring of the successor (the
+	// way keys cut from one buffer are): same bytes, shared memory, same start address
+	if len(bl)%2 == 1 {
+		for i := len(r) - 2; i >= 0; i-- {
+			if len(r[i]) > 0 && len(r[i]) <= len(r[i+1]) && r[i+1][:len(r[i])] == r[i] {
+				r[i] = r[i+1][:len(r[i])]
+			}
+		}
+	}
 	return r
 }
 
